@@ -1,11 +1,14 @@
 #!/bin/bash
-# usage: tools/mutant.sh <patch.diff> <ID> [extra check args...]
-# Applies the patch to /repo, runs ./check <ID> quick, and always reverts.
+# usage: tools/mutant.sh <patch.diff (absolute path)> <ID> [extra check args...]
+# Applies the patch to the repository under test (VERIF_REPO, default /repo), runs ./check <ID> quick
+# from the /verif tree this script belongs to, and always reverts.
 set -u
 P="$1"; ID="$2"; shift; shift
-cd /repo || exit 2
+VH="$(cd "$(dirname "$0")/.." && pwd)"
+export VERIF_REPO="${VERIF_REPO:-/repo}"
+cd "$VERIF_REPO" || exit 2
 if [ -n "$(git status --porcelain --untracked-files=no)" ]; then echo "repo dirty"; exit 2; fi
 git apply "$P" || { echo "patch does not apply"; exit 2; }
-trap 'git -C /repo checkout -- . ; git -C /repo clean -fdq -- rsass rsass-cli 2>/dev/null' EXIT
-cd /verif && ./check "$ID" quick "$@" | cut -c1-400 | grep -v "^# class" | tail -12
+trap 'git -C "$VERIF_REPO" checkout -- . ; git -C "$VERIF_REPO" clean -fdq -- rsass rsass-cli 2>/dev/null' EXIT
+cd "$VH" && ./check "$ID" quick "$@" | cut -c1-400 | grep -v "^# class" | tail -12
 echo "check rc=${PIPESTATUS[0]}"
